@@ -215,6 +215,10 @@ func (d *dynUpdater) checkBackendPair(pair *backendPair) bool {
 
 	// check equality of everything but endpoints
 	// TODO move this check to the backend type
+	// the per path config is lazily built from the paths and is also compared,
+	// so ensure that both have it, from the paths they currently have
+	oldBack.NeedACL()
+	curBack.NeedACL()
 	oldBackCopy := *oldBack
 	oldBackCopy.ID = curBack.ID
 	oldBackCopy.Dynamic = curBack.Dynamic
